@@ -564,3 +564,46 @@ def register(reg):      # noqa: F811
     L('prop.C19.mm.order', direct=_c19_mm_order, doc='min-max scaling with hi > lo is strictly order-preserving')
     L('prop.C19.mm.inverse', direct=_c19_mm_inverse, doc='undo(do(x)) = x for min-max scaling')
     L('prop.C19.mm.minrange', direct=_c19_mm_with_minrange, doc='with the interval derived from min_range the image is inside [0, 1]')
+
+
+# ---------------------------------------------------------------------------------------------
+# C05: generated layer ids never collide (each layer lies inside exactly one group)
+# ---------------------------------------------------------------------------------------------
+
+def _layer_id(off, g, ind, split, s):
+    """id written by find_layers for a hit of the group with id g listed at position ind: off+10*ind+s if the group is split
+    into components (s = component label), else the group id itself"""
+    return z3.If(split, off + 10 * ind + s, g)
+
+
+def _c05_ids():
+    """two hits with the same layer id belong to the same group (and, if split, to the same component)"""
+    off, gmax = z3.Ints('off gmax')
+    g1, g2, i1, i2, s1, s2 = z3.Ints('g1 g2 i1 i2 s1 s2')
+    sp1, sp2 = z3.Bools('sp1 sp2')
+    hy = [gmax >= 0, off == 100 * (1 + gmax / 100),            # id_offset = 100*(1 + max(group id)//100)
+          0 <= g1, g1 <= gmax, 0 <= g2, g2 <= gmax,             # ids of existing groups
+          i1 >= 0, i2 >= 0, (i1 == i2) == (g1 == g2),           # one table row per group id
+          0 <= s1, s1 <= 2, 0 <= s2, s2 <= 2,                   # mixture-model labels (at most three components)
+          sp1 == sp2 if False else z3.Implies(g1 == g2, sp1 == sp2),
+          _layer_id(off, g1, i1, sp1, s1) == _layer_id(off, g2, i2, sp2, s2)]
+    return hy, z3.And(g1 == g2, z3.Implies(sp1, s1 == s2))
+
+
+def _c05_ids_old_scheme_canary():
+    """the pinned tree's scheme (constant offset 100) is NOT injective: this lemma must be refutable"""
+    off, gmax = z3.Ints('off gmax')
+    g1, g2, i1, i2, s1, s2 = z3.Ints('g1 g2 i1 i2 s1 s2')
+    sp1, sp2 = z3.Bools('sp1 sp2')
+    hy = [off == 100, 0 <= g1, 0 <= g2, i1 >= 0, i2 >= 0, (i1 == i2) == (g1 == g2), 0 <= s1, s1 <= 2, 0 <= s2, s2 <= 2,
+          z3.Implies(g1 == g2, sp1 == sp2), _layer_id(off, g1, i1, sp1, s1) == _layer_id(off, g2, i2, sp2, s2)]
+    return hy, g1 == g2
+
+
+_register_10 = register
+
+
+def register(reg):      # noqa: F811
+    _register_10(reg)
+    reg.add_lemma(Lemma('prop.C05.layer_ids_injective', direct=_c05_ids, properties=('C05',),
+                        doc='offset above all group ids + 10*row + component (0..2): equal layer ids => same group (and same component)'))
